@@ -247,5 +247,9 @@ Definition check_snap_case_proj (p : var -> var) (c : snap_case) : bool :=
   && list_eqb (list_eqb vref_eqb) (map (map strip_ref) (so_frames o)) (map (map strip_ref) (sn_obs_frames c))
   && list_eqb entry_eqb (map (fun e => (fst e, p (snd e))) (so_table o)) (map (fun e => (fst e, p (snd e))) (sn_obs_table c))
   && list_eqb (option_eqb vref_eqb) (map (option_map strip_ref) (so_watches o)) (map (option_map strip_ref) (sn_obs_watches c)).
+(* C06 - totality: which objects were recorded, as what type, with which children (the text of a value is C02 / C05) *)
+Definition proj_types (x : var) : var :=
+  {| v_ty := v_ty x; v_val := []; v_trunc := false; v_oid := v_oid x; v_children := map strip_ref (v_children x) |}.
+Definition check_snap_case_types : snap_case -> bool := check_snap_case_proj proj_types.
 Definition check_snap_case_bounds : snap_case -> bool := check_snap_case_proj proj_bounds.
 Definition check_snap_case_identity : snap_case -> bool := check_snap_case_proj proj_identity.
